@@ -897,6 +897,23 @@ fn gen_from(prop: &str, posfile: &Path, out: &Path, cap: usize) {
                 for (i, m) in sv.iter().enumerate() {
                     likes.push(if i % 2 == 0 { json!({"t": "move", "m": proj::mv_json(*m)}) }
                                else { json!({"t": "uci", "text": proj::text_json(&m.to_string())}) });
+                    // promotions written WITHOUT the promotion piece, and plain pawn moves written WITH one: as UCI
+                    // and as SAN text they denote no legal move
+                    if m.src_cell().piece() == Some(owlchess::types::Piece::Pawn) {
+                        let a = files.as_bytes()[m.src().file().index()] as char;
+                        let bare_uci = format!("{}{}", m.src(), m.dst());
+                        let bare_san = if m.src().file() == m.dst().file() { format!("{}", m.dst()) } else { format!("{a}x{}", m.dst()) };
+                        if m.kind().promote().is_some() {
+                            if m.kind() == owlchess::moves::MoveKind::PromoteQueen {
+                                likes.push(json!({"t": "uci", "text": proj::text_json(&bare_uci)}));
+                                likes.push(json!({"t": "san", "text": proj::text_json(&bare_san)}));
+                                likes.push(json!({"t": "sanmove", "text": proj::text_json(&bare_san)}));
+                            }
+                        } else if m.kind() != owlchess::moves::MoveKind::Enpassant {
+                            likes.push(json!({"t": "uci", "text": proj::text_json(&format!("{bare_uci}q"))}));
+                            likes.push(json!({"t": "san", "text": proj::text_json(&format!("{bare_san}=Q"))}));
+                        }
+                    }
                     // SAN spellings of pawn captures: the short form "ed" and the long form "exd6", as a string
                     // and as a parsed san::Move (these take the path that applies the move without the final test)
                     if m.src_cell().piece() == Some(owlchess::types::Piece::Pawn) && m.src().file() != m.dst().file() {
@@ -971,6 +988,12 @@ fn gen_from(prop: &str, posfile: &Path, out: &Path, cap: usize) {
             }
             "C08" => {
                 sink.emit(&notation::fen_board_event(&b));
+                // ... and every board REACHED from it by one legal move (rights, marks and counters as make left them)
+                for m in owlchess::movegen::legal::gen_all(&b).iter() {
+                    if let Ok(Ok(nb)) = std::panic::catch_unwind(std::panic::AssertUnwindSafe(|| b.make_move(*m))) {
+                        sink.emit(&notation::fen_board_event(&nb));
+                    }
+                }
             }
             "C09" => {
                 sink.emit(&notation::san_event(&mut rng, &b));
